@@ -5,12 +5,48 @@ props = [json.loads(l) for l in open('/verif/properties.jsonl')]
 EXPL = "exploration"
 # id -> (engine, technique, level text, level note, design ref)
 CLAIMED = {
+ "C01": ("vcore+progen+runner", "property-based testing: typed program generator (proptest choice sequences) against an independent reference interpreter, both code generators, choice-level shrinking",
+         "Search over generated well-typed terminating programs; each is compiled by both code generators and its stdout/exit status/trap message compared with a reference interpreter written from the language rules. Right level: the property quantifies over programs, the oracle is an executable model; no proof of the compilers is attempted.",
+         "Trusts the reference interpreter (harness/src/progen/interp.rs) and Rust's float Display (= the runtime's printer). Constructs the language does not pin down (target read order of `x op= e`) are excluded by construction and covered by C02.", "DESIGN.md §3 C01"),
+ "C02": ("vcore+runner+corpus", "differential testing: hostile-argument programs, repository corpus with its directives, type-preserving mutants and 'wide' generated programs; baseline vs optimizing executable + classification of the ending",
+         "Differential search: both executables must agree on stdout and ending, and every ending must be a return/exit/fatal_error/documented trap. Says nothing when both are wrong the same way (C01 covers the reference subset).",
+         "Programs depending on threads/clock/files are compared on 'defined ending' only.", "DESIGN.md §3 C02"),
+ "C03": ("vcore+progen+runner", "metamorphic testing: one program under a generated list of collector configurations (gc kind, stress modes, TLAB, workers, verify, heap sizes), reference result from the interpreter / closed form",
+         "Search over (program, configuration list): all configurations must give the reference result, never crash, and bounded-live-set programs must not run out of memory. Dynamic only: cannot show absence of a root-missing race.",
+         "Multi-threaded allocation only via C09 workloads; every-allocation stress limited to small programs (cost).", "DESIGN.md §3 C03"),
+ "C05": ("vcore+progen+isolate", "property-based testing: well-typed generated programs (accept, verifier, both generators) and single-fault mutants of 10 rule classes injected at random blocks (reject)",
+         "Two-sided search: every generated well-typed program must be accepted and verified; every mutant with exactly one injected static error must be rejected with a diagnostic and emit nothing.",
+         "Only the 10 listed rule classes are attacked for rejection; fault statements are self-contained.", "DESIGN.md §3 C05"),
+ "C06": ("vcore+textgen+isolate", "fuzzing-style property-based testing: token soups, grammar programs, corpus and token-level mutants through lexer+parser+semantic analysis in isolated worker processes; crash signatures",
+         "Search for panics/aborts/hangs/out-of-file diagnostics over generated and mutated texts; every case runs in a worker process so stack overflows and aborts are attributed to an input. Many genuine crashes of the unchanged tree are listed as known findings by signature; anything else is a violation.",
+         "size <= 64 KiB, nesting <= 64; a case over 60 s is inconclusive, never a violation.", "DESIGN.md §3 C06"),
+ "C10": ("vcore+asmscan+runner", "property-based testing over compiled artefacts: independent sweep of the emitted assembly (objdump / bl-blr masks) against the stack-map, function and location tables",
+         "For generated and corpus programs x {baseline x64, optimizing x64, optimizing arm64}: every call return address that can be suspended has a map, slots are aligned and inside the frame's static extent, ranges are registered once and end where the code ends, tables are ordered. Presence/shape only: whether a listed slot really holds a reference is attacked dynamically by C03.",
+         "Trusts GNU objdump's linear sweep for x64 instruction boundaries; arm64 is static (never executed here).", "DESIGN.md §3 C10"),
+ "C11": ("vcore+matchgen", "property-based testing: generated pattern matrices over small finite types against a brute-force oracle over all values; run-time arm selection on both generators",
+         "Exactness of exhaustiveness and arm reachability is checked against enumeration of every value of the scrutinee type (literal types: all literals used + one fresh value); a sample is executed on every value with both generators.",
+         "Random matrices only (no exhaustive enumeration of small shapes); infinite types only through literals + wildcard.", "DESIGN.md §3 C11"),
+ "C13": ("vcore+runner", "property-based testing: generated recursion/allocation programs x collectors x heap sizes x generators; oracle = documented trap with trace, bounded partner program must succeed (metamorphic)",
+         "Search over frame shapes, thread placement, retention shapes and impossible lengths: the run must end in 107/106 (or 109 for impossible sizes) with a trace, never a signal/hang/bogus success.",
+         "Negative and astronomically large lengths are a listed known finding (both generators / baseline).", "DESIGN.md §3 C13"),
+ "C14": ("vcore+runner", "property-based testing: generated programs with exactly one failing operation at a generator-known line inside a generator-known call chain; stderr frames compared with the chain, both generators",
+         "Search over failing-op kinds x call-chain shapes (plain, generic, class method, mutating method, lambda, trait object, inlinable): status, message, every frame's function and line, identical report for both generators, stdout delivered.",
+         "Frame names are matched by unique identifiers; columns only compared between generators.", "DESIGN.md §3 C14"),
+ "C15": ("vcore+runner", "property-based testing over build histories: each program built 3x concurrently from different working/output directories (package, assembly, executable; both generators; collectors) + bootstrap fixed point",
+         "Byte identity within each group of builds; stage2 == stage3 of the self-compiled optimizing compiler in release and debug tool builds.",
+         "Same host/toolchain; source path constant within a group.", "DESIGN.md §3 C15"),
  "C16": ("vcore+textgen", "property-based testing: generated texts (proptest choice sequences, corpus, token-level mutants) against a round-trip/tiling oracle, ddmin shrinking",
          "Search, not proof: every repo source in 3 line-ending styles plus >=150k generated/mutated texts per quick run are parsed and the tree is checked to reproduce the text byte for byte, to tile, to sum lengths, to keep error spans inside the text and to be stable under re-parse. Right level because the property quantifies over all texts incl. every error-recovery path and the oracle is exact and cheap (µs per case).",
          "Trusts std string slicing and my walker; sizes <=64 KiB, bracket nesting <=64.", "DESIGN.md §3 C16"),
- "C19": ("vcore", "property-based testing: generated adversarial name sets against injectivity / charset / length / demangle round-trip oracles, plus cross-process determinism",
-         "Search over adversarial name families (edits placed past the truncation point, escape look-alikes, multi-byte, 120–5000 byte prefixes) and limits; a systematic single-byte sweep of three long names. Cannot find a genuine 128-bit hash collision except by luck.",
-         "String level only in this check's in-process part; program-level label uniqueness is added by the assembly scanner sub-check when tools are available.", "DESIGN.md §3 C19"),
+ "C17": ("vcore+textgen+isolate", "property-based testing: corpus, grammar programs and layout mutants x line widths against token/comment preservation, re-parse and idempotence oracles",
+         "Search over layouts and widths; the comparator derives optional trailing commas from the syntax tree. Numerous genuine formatter defects of the unchanged tree are listed as known findings by signature; comments/blank lines in the middle of a construct are excluded from the random search by construction (counted) and kept alive through their reproducers.",
+         "Inputs that do not parse are outside the quantifier (skipped, counted).", "DESIGN.md §3 C17"),
+ "C18": ("vcore+runner", "round-trip and fault-injection testing: package decode/encode identity, via-package build == direct build (both generators), truncations and bit flips must be refused or harmless; bytecode stream round trip in harness-bc",
+         "Search over programs and generated faults; bit flips that yield a different program are a listed known finding (no integrity protection).",
+         "Bytecode writer/reader stream round trip is a separate crate (harness-bc) merged into the evidence when present.", "DESIGN.md §3 C18"),
+ "C19": ("vcore+asmscan", "property-based testing: generated adversarial name sets against injectivity / charset / length / demangle round-trip oracles, cross-process determinism, and label sets of emitted assembly",
+         "Search over adversarial name families (edits placed past the truncation point, escape look-alikes, multi-byte, 120–5000 byte prefixes) and limits; a systematic single-byte sweep of three long names; programs with deeply nested generic instantiations and same-named items whose assembly labels must be unique, valid and assemble. Cannot find a genuine 128-bit hash collision except by luck.",
+         "FNV-128 collisions are out of reach of random search.", "DESIGN.md §3 C19"),
  "C20": ("vcore+textgen", "property-based testing: exhaustive small documents + generated texts, every offset and every position, against an independent recomputation and round trip",
          "Exhaustive over all documents up to length 5 (quick) over {a, astral, 2-byte, 3-byte, LF, CR} and random texts beyond; for each text all char-boundary offsets and all (line, column) incl. out-of-range are checked. position.rs is compiled in unchanged via #[path].",
          "Document-symbol ranges over the real language server are a separate sub-check (lspdrive).", "DESIGN.md §3 C20"),
